@@ -64,7 +64,9 @@ impl<'a> G<'a> {
                 self.counter += 1;
                 tag("rec", vec![ti(self.counter as i64), tl(args)])
             }
-            4 => tag("lappend", vec![ts(LVARS[self.rng.below(2)]), self.expr(1)]),
+            // lappend only ever grows `l`, foreach over a variable only ever reads `m`: a loop that
+            // appends to the list it iterates over would grow it geometrically with the nesting
+            4 => tag("lappend", vec![ts("l"), self.expr(1)]),
             5 => {
                 if in_loop && self.rng.chance(1, 2) {
                     if self.rng.chance(1, 2) { tag("break", vec![]) } else { tag("continue", vec![]) }
@@ -109,7 +111,7 @@ impl<'a> G<'a> {
                 let nv = if self.rng.chance(1, 12) { 0 } else { 1 + self.rng.below(3) };
                 let vars: Vec<Term> = (0..nv).map(|i| ts(["a", "b", "z"][i])).collect();
                 let src = if self.rng.chance(1, 3) {
-                    tag("lvar", vec![ts(LVARS[self.rng.below(2)])])
+                    tag("lvar", vec![ts("m")])
                 } else {
                     let n = self.rng.below(6);
                     tag("llit", vec![tl((0..n).map(|_| ti(self.rng.below(9) as i64)).collect())])
